@@ -40,6 +40,19 @@ pub type Result<T> = core::result::Result<T, Error>;
 /// A shorthand for the [deserialized type associated with a type](DeserializeInner::DeserType).
 pub type DeserType<'a, T> = <T as DeserializeInner>::DeserType<'a>;
 
+/// Drops the [`MemBackend`] already stored in a partially initialized
+/// [`MemCase`] if deserialization fails (or panics) before the [`MemCase`]
+/// is complete, so that the memory or the mapping is not leaked.
+struct BackendGuard(*mut MemBackend);
+
+impl Drop for BackendGuard {
+    fn drop(&mut self) {
+        // SAFETY: the guard is created right after the backend has been
+        // written, and it is forgotten as soon as the MemCase is complete.
+        unsafe { core::ptr::drop_in_place(self.0) }
+    }
+}
+
 /// Main deserialization trait. It is separated from [`DeserializeInner`] to
 /// avoid that the user modify its behavior, and hide internal serialization
 /// methods.
@@ -110,9 +123,11 @@ pub trait Deserialize: DeserializeInner {
         unsafe {
             addr_of_mut!((*ptr).1).write(backend);
         }
+        let guard = BackendGuard(unsafe { addr_of_mut!((*ptr).1) });
         // deserialize the data structure
         let mem = unsafe { (*ptr).1.as_ref().unwrap() };
         let s = Self::deserialize_eps(mem)?;
+        core::mem::forget(guard);
         // write the deserialized struct in the memcase
         unsafe {
             addr_of_mut!((*ptr).0).write(s);
@@ -157,9 +172,11 @@ pub trait Deserialize: DeserializeInner {
         unsafe {
             addr_of_mut!((*ptr).1).write(backend);
         }
+        let guard = BackendGuard(unsafe { addr_of_mut!((*ptr).1) });
         // deserialize the data structure
         let mem = unsafe { (*ptr).1.as_ref().unwrap() };
         let s = Self::deserialize_eps(mem)?;
+        core::mem::forget(guard);
         // write the deserialized struct in the MemCase
         unsafe {
             addr_of_mut!((*ptr).0).write(s);
@@ -200,10 +217,12 @@ pub trait Deserialize: DeserializeInner {
         unsafe {
             addr_of_mut!((*ptr).1).write(MemBackend::Mmap(mmap));
         }
+        let guard = BackendGuard(unsafe { addr_of_mut!((*ptr).1) });
 
         let mmap = unsafe { (*ptr).1.as_ref().unwrap() };
         // deserialize the data structure
         let s = Self::deserialize_eps(mmap)?;
+        core::mem::forget(guard);
         // write the deserialized struct in the MemCase
         unsafe {
             addr_of_mut!((*ptr).0).write(s);
